@@ -133,8 +133,10 @@ def is_simple(pts):
 
 
 # ------------------------------------------------------------------------------------ generators
-def gen_polygon(rnd, step=5, span=60, kinds=None):
+def gen_polygon(rnd, step=5, span=None, kinds=None):
     """simple polygon with integer vertices on a coarse lattice (multiples of step)"""
+    if span is None:
+        span = 12 * step
     for _ in range(50):
         k = rnd.choice(kinds or ['rect', 'rect', 'star', 'star', 'comb', 'stair', 'tri', 'L'])
         cx = rnd.randrange(-span, span + 1, step)
@@ -295,3 +297,38 @@ def gen_big_polygon(rnd, nmin=5, nmax=600):
     if rnd.random() < 0.5:
         out = list(reversed(out))
     return [(x + ox, y + oy) for x, y in out]
+
+
+def min_clearance(pts):
+    """smallest distance from a vertex to an edge it does not belong to (narrowest feature of a simple polygon)"""
+    n = len(pts)
+    best = float('inf')
+    for i in range(n):
+        px, py = pts[i]
+        for j in range(n):
+            if j == i or (j + 1) % n == i:
+                continue
+            ax, ay = pts[j]
+            bx, by = pts[(j + 1) % n]
+            d = dist2_point_seg(px, py, ax, ay, bx, by)
+            if d < best:
+                best = d
+    return math.sqrt(best)
+
+
+def min_angle_deg(pts):
+    """smallest interior/exterior corner angle (degrees) between consecutive edges of the polygon"""
+    n = len(pts)
+    best = 180.0
+    for i in range(n):
+        a, b, c = pts[i - 1], pts[i], pts[i + 1 - n]
+        u = (a[0] - b[0], a[1] - b[1])
+        v = (c[0] - b[0], c[1] - b[1])
+        lu, lv = math.hypot(*u), math.hypot(*v)
+        if lu == 0 or lv == 0:
+            return 0.0
+        cs = max(-1.0, min(1.0, (u[0] * v[0] + u[1] * v[1]) / (lu * lv)))
+        ang = math.degrees(math.acos(cs))
+        if ang < best:
+            best = ang
+    return best
